@@ -193,9 +193,9 @@ func main() {
 	n := *ncases
 	if n == 0 {
 		n = 90
-		if *tier == "thorough" {
-			n = 3000
-		}
+	}
+	if *tier == "thorough" {
+		n *= 30
 	}
 	for i := 0; i < n; i++ {
 		runCase(w, *seed, i, *focus)
